@@ -3,7 +3,11 @@ package vaxis
 import (
 	"fmt"
 	"io"
+	"os"
+	"os/signal"
 	"strings"
+	"syscall"
+	"time"
 
 	"github.com/containerd/console"
 
@@ -20,6 +24,7 @@ type verifTerm struct {
 	pending []byte
 	has     map[string]bool
 	closed  bool
+	style   int // the user's cursor style, reported to DECRQSS
 }
 
 func (t *verifTerm) Read(p []byte) (int, error) {
@@ -76,6 +81,9 @@ func (t *verifTerm) Write(p []byte) (int, error) {
 	}
 	if strings.Contains(s, textAreaSize) && t.has["sizeReports"] {
 		out.WriteString("\x1b[4;30;40t\x1b[8;3;4t")
+	}
+	if strings.Contains(s, userCursorStyle) {
+		fmt.Fprintf(&out, "\x1bP1$r%d q\x1b\\", t.style)
 	}
 	if strings.Contains(s, dsrcpr) {
 		// the explicit-width probe printed one cell if (and only if) OSC 66 is implemented
@@ -150,11 +158,12 @@ var verifFeatures = []string{"sync", "unicodeCore", "colorTheme", "inBandResize"
 func VerifC07Startup() {
 	t := &verifTerm{in: make(chan []byte, 16), has: map[string]bool{}}
 	// group 0: every feature free; group 1: the first 8 free, the others absent; group 2: the
-	// last 7 free, the others present
+	// last 7 free, the others present; group 3: in-band resize, kitty keyboard and size
+	// reports free, the others absent
 	group := zzverif.Param("group")
 	for i, f := range verifFeatures {
 		switch {
-		case group == 0 || group == 1 && i < 8 || group == 2 && i >= 8:
+		case group == 0 || group == 1 && i < 8 || group == 2 && i >= 8 || group == 3 && (f == "inBandResize" || f == "kittyKeyboard" || f == "sizeReports"):
 			t.has[f] = zzverif.Bool("has." + f)
 		default:
 			t.has[f] = group == 2
@@ -162,8 +171,16 @@ func VerifC07Startup() {
 	}
 	t.has["reports-unknown-modes-as-permanently-reset"] = zzverif.Bool("unknownModesPermanentlyReset")
 	t.has["xtversion"] = true
+	t.style = zzverif.Choose("userCursorStyle", 7)
+	// signals=1: New installs its signal handlers; the harness is registered for SIGTERM as
+	// well, so that delivering it does not terminate the process
+	withSignals := zzverif.Param("signals") == 1
+	own := make(chan os.Signal, 1)
+	if withSignals {
+		signal.Notify(own, syscall.SIGTERM)
+	}
 	zzverif.Terminates(200000)
-	vx, err := New(Options{WithConsole: t, NoSignals: true})
+	vx, err := New(Options{WithConsole: t, NoSignals: !withSignals})
 	zzverif.Assert(err == nil && vx != nil, "new-returns")
 	if err != nil || vx == nil {
 		return
@@ -183,15 +200,29 @@ func VerifC07Startup() {
 	zzverif.Assert(c.osc176 == t.has["osc176"], "cap:application-id")
 	zzverif.Assert(c.reportSizeChars == t.has["sizeReports"] && c.reportSizePixels == t.has["sizeReports"], "cap:size-reports")
 	zzverif.Assert(vx.CanKittyGraphics() == t.has["kittyGraphics"] && vx.CanSixel() == t.has["sixel"], "reported-graphics-capabilities")
+	zzverif.Assert(int(vx.userCursorStyle) == t.style, "user-cursor-style-as-reported")
 	zzverif.Reach("started")
+	if withSignals {
+		// a termination signal arrives: the library shuts the session down by itself
+		zzverif.DeliverSignal(int(syscall.SIGTERM))
+		reacted := false
+		select {
+		case <-vx.chQuit:
+			reacted = true
+		case <-time.After(500 * time.Millisecond):
+		}
+		zzverif.Assert(reacted, "termination-signal-shuts-the-session-down")
+		signal.Stop(own)
+	}
 	vx.Close()
 	// the whole session, from the first query to Close, leaves the terminal as found (C04)
 	rt := newRefTerm(4, 3)
 	rt.visible = 1
-	rt.shape = int(vx.userCursorStyle)
+	rt.shape = t.style
 	// Vaxis enables in-band resize blindly as its query; a terminal without it ignores that
 	rt.unimplemented = map[int]bool{2048: !t.has["inBandResize"]}
 	rt.feed(t.log)
 	verifRestored(rt, vx, "session")
+	zzverif.Assert(rt.shape == t.style, "session:cursor-shape-back-at-the-user's")
 	zzverif.Reach("end")
 }
